@@ -95,14 +95,14 @@ pub async fn run_conc(cfg: RunCfg) -> RunResult {
         }
     }
     let mix = conc_mix(&cfg.prop);
-    let rounds = r.rng.range(1, 2) as u64;
+    let rounds = if cfg.thorough() { r.rng.range(2, 4) } else { r.rng.range(1, 2) } as u64;
     let mut ihash = 0u64;
     let mut overlapped = false;
     let mut fault_hit_any = false;
     for round in 0..rounds {
         r.step = step;
         let base_v = r.ds.version().version;
-        let nparties = r.rng.range(2, 4) as usize;
+        let nparties = if cfg.thorough() { r.rng.range(2, 5) } else { r.rng.range(2, 4) } as usize;
         let cur_cols = r.st.cols.clone();
         let versions: Vec<u64> = r.history.keys().cloned().collect();
         // candidates for read versions: recent versions with the current schema
